@@ -1,13 +1,13 @@
 /* translator prototype: prints tables of the library as Gallina terms */
-#include "/repo/libscpi/src/error.c"
-#include "/repo/libscpi/src/fifo.c"
-#include "/repo/libscpi/src/ieee488.c"
-#include "/repo/libscpi/src/minimal.c"
-#include "/repo/libscpi/src/lexer.c"
-#include "/repo/libscpi/src/utils.c"
-#include "/repo/libscpi/src/parser.c"
-#include "/repo/libscpi/src/units.c"
-#include "/repo/libscpi/src/expression.c"
+#include "error.c"
+#include "fifo.c"
+#include "ieee488.c"
+#include "minimal.c"
+#include "lexer.c"
+#include "utils.c"
+#include "parser.c"
+#include "units.c"
+#include "expression.c"
 #include <inttypes.h>
 static void bytes(const char*s){ printf("["); for(size_t i=0;s[i];i++) printf("%s%u",i?";":"",(unsigned char)s[i]); printf("]%%N"); }
 int main(){
